@@ -4,6 +4,7 @@ import (
 	"fmt"
 	"runtime/debug"
 	"strings"
+	"sync/atomic"
 )
 
 // Baton-passing scheduler: real goroutines, but exactly one task is runnable at any instant and
@@ -312,6 +313,7 @@ func (s *Sched) Run() Verdict {
 			s.trace = append(s.trace, fmt.Sprintf("%d %s %s", s.Steps, next.name, next.point))
 		}
 		s.Steps++
+		atomic.AddInt64(&progressCounter, 1)
 		wasBlocked := next.state == tsBlocked
 		next.state = tsReady
 		s.cur = next
@@ -339,3 +341,6 @@ func (s *Sched) abort() {
 	}
 	s.cur = nil
 }
+
+// progressCounter is bumped at every scheduling step and run start; the worker watchdog uses it.
+var progressCounter int64
